@@ -252,7 +252,7 @@ func logSession(level int, password string, scenario int, extraSecret string) (l
 		}
 		return s
 	}()
-	cl.Disconnect()
+	disconnectBounded(cl)
 	return buf.String(), window, writesBefore, res
 }
 
